@@ -82,6 +82,8 @@ pub fn spec(check: &str, tier: &str) -> Option<CheckSpec> {
                 progs.extend(pr);
                 level = format!("{}; {}", level, l);
             }
+            progs.extend(fam::spin_lock_family(tier));
+            level.push_str("; SPIN+LOCK");
             Some(CheckSpec {
                 id: "C01",
                 level: "model_checking",
@@ -330,7 +332,8 @@ pub fn spec(check: &str, tier: &str) -> Option<CheckSpec> {
             })
         }
         "C18" => {
-            let progs = fam::spin_programs(tier);
+            let mut progs = fam::spin_programs(tier);
+            progs.extend(fam::spin_lock_family(tier));
             Some(CheckSpec {
                 id: "C18",
                 level: "model_checking",
@@ -393,6 +396,10 @@ pub fn spec(check: &str, tier: &str) -> Option<CheckSpec> {
                 progs.extend(pr);
                 level = format!("{}; {}", level, l);
             }
+            // only loops that terminate in every execution (C14 is about programs whose threads terminate)
+            progs.extend(fam::spin_programs(tier).into_iter().filter(|p| !p.text().contains("==77") && !p.name.starts_with("S35")));
+            progs.extend(fam::spin_lock_family(tier));
+            level.push_str("; SPIN and SPIN+LOCK (yield loops, also next to a mutex)");
             Some(CheckSpec {
                 id: "C14",
                 level: "model_checking",
